@@ -506,6 +506,16 @@ def run_shard(spec, R):
                             lambda: {**case, "class": "AdvancedKernelInterpolation", "after": "update_variable_model_parameters", "fixed": nfix, "prescribed": expb.tolist(),
                                      "got": np.asarray(atb, float).tolist()}, group=f"advanced_update/{kind}")
                     R.count("kernel_advanced_updated")
+                    # ... and then new fixed values alone: the variable values set before are kept
+                    newfix = rng.uniform(0, 1, size=nfix)
+                    ok, _ = R.guarded("kernel_reproduces_values", lambda: aki.update_advanced(fixed_values=newfix.copy()))
+                    if ok:
+                        ok, atc = R.guarded("kernel_reproduces_values", lambda: aki(sup.copy()))
+                    if ok:
+                        expc = np.concatenate([newfix, newvar])
+                        R.check(np.shape(atc) == (ns,) and bool(np.all(np.abs(np.asarray(atc, float) - expc) <= 1e-3)), "kernel_reproduces_values",
+                                lambda: {**case, "class": "AdvancedKernelInterpolation", "after": "update_variable_model_parameters, then update_advanced(fixed_values)", "fixed": nfix,
+                                         "prescribed": expc.tolist(), "got": np.asarray(atc, float).tolist()}, group=f"advanced_update_fixed/{kind}")
         # numba path == plain kernel sum for 1-, 2- and 3-dimensional signal arrays
         w = np.asarray(ki.interpolation_weights, np.float32)
         S = np.asarray(ki.supports, np.float32)
